@@ -93,14 +93,17 @@ pub proof fn axiom_slice_len<T>(b: &[T])
     ensures b@.len() <= isize::MAX
 {}
 
-//@trusted T4 crate::ser::Serialize: the trait only declares to_writer/write_len; the ghost fn wire() names the byte string a value stands for on the wire (defined per type from RFC 9580 in lemmas/packet_wire.rs), so that "to_writer appends wire()" and "write_len() == |wire()|" (C05) are the trait-level contracts every impl has to meet; ser_inv() is the documented type invariant under which they hold, len_inv() what write_len needs in order not to panic
+//@trusted T4 crate::ser::Serialize: the trait only declares to_writer/write_len; the ghost fn wire() names the byte string a value stands for on the wire (defined per type from RFC 9580 in lemmas/packet_wire.rs), so that "to_writer appends wire()" and "write_len() == |wire()|" (C05) are the trait-level contracts every impl has to meet; ser_inv() is the documented type invariant under which they hold, len_inv() / wr_inv() what write_len / to_writer need in order not to panic
 pub trait Serialize {
     spec fn wire(&self) -> Seq<u8>;
     spec fn ser_inv(&self) -> bool;
     /// what the length query needs in order not to panic (true for almost every type)
     spec fn len_inv(&self) -> bool;
+    /// what to_writer needs in order not to panic (true for almost every type: a value without a wire form makes
+    /// to_writer return Err, which every impl states as `Ok ==> ser_inv()`)
+    spec fn wr_inv(&self) -> bool;
     fn to_writer<W: io::Write>(&self, writer: &mut W) -> (r: errors::Result<()>)
-        requires self.ser_inv(),
+        requires self.wr_inv(),
         ensures match r {
             Ok(_) => (*final(writer)).out() == (*old(writer)).out() + self.wire(),
             Err(_) => true };
